@@ -56,6 +56,12 @@ theorem natToBits_length (w v : Nat) : (natToBits w v).length = w := by
   | zero => rfl
   | succ w ih => simp [natToBits, ih]
 
+theorem cs5Bits_length (m : Bits) : (cs5Bits m).length = 5 := natToBits_length 5 _
+
+theorem crc8Bits_length (m : Bits) : (crc8Bits m).length = 8 := natToBits_length 8 _
+
+theorem ok_bind (a : Bits) (f : Bits → Except Err Bits) : (Except.ok a >>= f) = f a := rfl
+
 theorem chunks_length_mul {α : Type} (n k : Nat) (hn : 0 < n) (l : List α) (h : l.length = n * k) :
     (chunks n l).length = k := by
   induction k generalizing l with
